@@ -28,3 +28,4 @@ PROP = dict(
           rc('C02_wake_internal_o2', 'harness/C02_tasks.cpp', 'internal-o2', san='', opt='-O2 -g', flags='-DC02_FORKED -DC02_BIN=\\"C02_wake_internal_o2\\"',
              env={'PBT_ONLY': 'wakeup_rounds'}, hang_s=400, quick=dict(scale=2), thorough=dict(scale=20, seeds=4))],
 )
+PROP['rule'] += ' Round-3 extension: for schedule() the function may be handed over as an lvalue functor that the caller overwrites right after the call, and the tasking system may be re-initialised with another thread count while the burst is still queued; every function handed over still runs exactly once, unchanged.'
